@@ -626,6 +626,8 @@ func init() {
 			{ID: "TX-pair", Floor: 6, Run: c07TxPair, Text: "[TX] every path from a successful begin to an exit commits / rolls back / has a deferred rollback; flag cleared only after Commit()==nil; lastgersync.Reorg is a single statement"},
 			{ID: "TX-through", Floor: 19, Run: c07TxThrough, Text: "[TX] every SQL write in the tx scope and its callee cone uses the tx handle"},
 			{ID: "TX-err", Floor: 15, Run: c07TxErr, Text: "[ERR] a failed SQL write in the tx cone always ends the function with that error (duplicate rht rows, extended code 1555, excepted)"},
+			{ID: "C07-schema", Floor: 45, Run: func(c *core.Ctx) { schemaTypesRule(c, "C07-schema", "bridgesync", "l1infotreesync", "lastgersync", "tree") }, Text: "[SCHEMA-TYPES] integer columns have INTEGER affinity (numeric ORDER BY), big.Int text columns have TEXT affinity, references are not deferred to COMMIT"},
+			{ID: "C07-clear", Floor: 7, Run: shared("C07-clear", c14Clear), Text: "(shared with C14-clear) the halt is lifted only after the reorg transaction committed"},
 			{ID: "C07-stop", Floor: 2, Run: c07Stop, Text: "[DOM] (shared with C14-stop) a halted processor records nothing: ProcessBlock passes the !isHalted() edge before any data access"},
 			{ID: "TX-mem", Floor: 6, Run: c07TxMem, Text: "[TX] frontier writes are dominated by AddRollbackCallback(invalidate to sentinel); sentinel < -1; mismatch rebuilds"},
 			{ID: "TX-frame", Floor: 9, Run: c07TxFrame, Text: "[WHO] computed set of post-construction field writes of the long-lived store objects is within the accounted table"},
